@@ -24,15 +24,15 @@ logging.disable(logging.CRITICAL)
 
 LEAN_TARGETS = ["NfcVerif.Props.C11", "drv_c11"]
 
-THEOREMS = []
-THEOREMS_TODO = [
+THEOREMS = [
     "NfcVerif.C11.pdu_roundtrip",
     "NfcVerif.C11.pdu_len",
+    "NfcVerif.C11.pdu_len_valid",
     "NfcVerif.C11.pdu_decode_total",
     "NfcVerif.C11.pdu_decode_at_total",
     "NfcVerif.C11.agf_locality",
-    "NfcVerif.C11.pdu_impl_refines_spec",
-    "NfcVerif.C11.pdu_decode_reencode",
+    "NfcVerif.C11.decode_at_locality",
+    "NfcVerif.C11.nested_eq_decode",
 ]
 
 SIMPLE = ["symm", "pax", "ui", "connect", "disc", "cc", "dm", "frmr", "snl", "dps", "i", "rr", "rnr", "unknown"]
@@ -241,7 +241,16 @@ def run(ck):
             return "exc " + exc_name(e)
 
     pending = []   # (request, real line, replay dict)
-    stats = {"cases": 0, "dis": 0}
+    stats = {"cases": 0, "dis": 0, "spec": 0, "specdis": 0}
+    perkey = {}
+    ck_fail = ck.fail
+
+    def fail(key, what, replay):
+        """at most 3 reports per key, so that one kind of failure does not hide the others"""
+        perkey[key] = perkey.get(key, 0) + 1
+        if perkey[key] <= 3:
+            ck_fail(key, what, replay)
+    ck.fail = fail
 
     def flush(name="pdu model vs nfc.llcp.pdu"):
         if not pending:
@@ -249,10 +258,16 @@ def run(ck):
         replies = model.ask_many([r[0] for r in pending])
         for (line, real, rp), rep in zip(pending, replies):
             if rep != real:
-                stats["dis"] += 1
+                if line.startswith("spec "):
+                    stats["specdis"] += 1
+                    key = "tie:c11-spec-vs-pdu.py"
+                else:
+                    stats["dis"] += 1
+                    key = "tie:c11-model-vs-pdu.py"
                 rp = dict(rp, request=line[:4000], model=rep[:2000], impl=real[:2000])
-                ck.fail("tie:c11-model-vs-pdu.py", "model %r, implementation %r on %r" % (rep[:300], real[:300], line[:300]), rp)
-        stats["cases"] += len(pending)
+                ck.fail(key, "model %r, implementation %r on %r" % (rep[:300], real[:300], line[:300]), rp)
+        stats["spec"] += sum(1 for r in pending if r[0].startswith("spec "))
+        stats["cases"] += sum(1 for r in pending if not r[0].startswith("spec "))
         pending.clear()
 
     # ------------------------------------------------------------ decode: oracle + tie on one octet string
@@ -263,6 +278,9 @@ def run(ck):
         real, d = real_decode(b)
         if tie:
             pending.append(("dec " + hx(b), real, {"octets": b.hex()}))
+            # the Lean reading of the frame formats (NfcVerif.Pdu.Spec.decode) against the real decoder
+            if not real.startswith("exc") or real == "exc DecodeError":
+                pending.append(("spec " + hx(b), real, {"octets": b.hex()}))
         ck.case(("dec", b), len(b) >= 2, bucket,
                 sample={"request": "dec " + hx(b)[:80], "impl": real[:120]} if len(ck.samples) < 2 or rng.random() < 2e-5 else None)
         if not oracle:
@@ -293,7 +311,7 @@ def run(ck):
                 e = P.encode(o)
                 d2 = R.from_obj(P, P.decode(e))
                 if d2 != R.norm(d):
-                    ck.fail("reencode-changes-pdu" if not rw0(d) else "connect-rw0-not-encoded",
+                    ck.fail("reencode-changes-pdu" if not rw0(R.norm(d), d2) else "connect-rw0-not-encoded",
                             "decode(%s) = %s, but decode(encode(.)) = %s" % (b.hex()[:200], R.text(d)[:200], R.text(d2)[:200]), rp)
                 if len(o) != len(e):
                     ck.fail("len-differs-from-encoding", "len = %d, encoding has %d octets: %s" % (len(o), len(e), R.text(d)[:200]), rp)
@@ -301,8 +319,17 @@ def run(ck):
                 ck.fail("reencode-raises", "decode(%s) = %s, encode raised %s" % (b.hex()[:200], R.text(d)[:200], exc_name(ex)), rp)
         return d
 
-    def rw0(d):
-        return (d[0] in ("connect", "cc") and d[4] == 0) or (d[0] == "agf" and any(rw0(q) for q in d[3]))
+    def rw_default(d):
+        """the PDU with every RW = 0 replaced by the default 1"""
+        if d[0] in ("connect", "cc") and d[4] == 0:
+            return d[:4] + (1,) + d[5:]
+        if d[0] == "agf":
+            return d[:3] + ([rw_default(q) for q in d[3]],)
+        return d
+
+    def rw0(d, got=None):
+        """the F4 pattern: `got` is `d` with RW = 0 turned into RW = 1 and nothing else changed"""
+        return got is not None and rw_default(d) != d and rw_default(d) == got
 
     def overread(b):
         """some aggregated PDU decodes differently inside the aggregate than from its own octets"""
@@ -318,6 +345,58 @@ def run(ck):
         except Exception:  # noqa
             pass
         return False
+
+    # ------------------------------------------------------------ encode / len
+    def enc_case(desc, valid, bucket):
+        t = R.text(desc)
+        if len(t) > 400000:
+            return
+        real = real_encode(desc)
+        ln = real_len(desc)
+        pending.append(("enc " + t, real, {"pdu": t[:3000]}))
+        pending.append(("len " + t, ln, {"pdu": t[:3000]}))
+        nontrivial = len(desc) > 3 or desc[0] == "agf"
+        ck.case(("enc", t), nontrivial, bucket,
+                sample={"request": "enc " + t[:100], "impl": real[:100]} if rng.random() < 1e-4 or len(ck.samples) < 4 else None)
+        rp = {"pdu": t[:3000], "encode": real[:3000], "len": ln}
+        # oracles on the real code
+        if real.startswith("ok"):
+            e = bytes.fromhex(real[3:]) if real[3:] != "-" else b""
+            if ln != "ok %d" % len(e):
+                ck.fail("len-differs-from-encoding", "len(%s) = %s, encoding has %d octets" % (t[:200], ln, len(e)), rp)
+        if not valid:
+            return
+        if not real.startswith("ok"):
+            ck.fail("valid-pdu-not-encodable", "encode(%s) raised %s" % (t[:200], real), rp)
+            return
+        back, d = real_decode(e)
+        if d != desc:
+            key = "connect-rw0-not-encoded" if rw0(desc, d) else "roundtrip-field-mismatch"
+            ck.fail(key, "decode(encode(%s)) = %s" % (t[:200], back[:200]), dict(rp, decoded=back[:3000]))
+        ref = R.ref_decode(e)
+        if ref != desc:
+            ck.fail("connect-rw0-not-encoded" if rw0(desc, ref) else "encoding-differs-from-format", "encode(%s) = %s which the LLCP frame format reading takes as %s"
+                    % (t[:200], e.hex()[:200], "malformed" if ref is None else R.text(ref)[:200]), rp)
+
+    # ------------------------------------------------------------ witnesses of the defects seen at design time, first
+    def witnesses():
+        enc_case(("connect", 4, 32, 128, 0, None), True, "enc:witness")           # F4
+        enc_case(("cc", 32, 4, 128, 0), True, "enc:witness")
+        dec_case(bytes.fromhex("0080" "0004" "11200202" "0002" "0540"), "dec:witness")   # F5: cut MIUX TLV, then DISC
+        w2 = bytes.fromhex("112006044142" "4344")                                  # F5: SN TLV longer than size
+        real, _ = real_decode(w2, 0, 4)
+        pending.append(("decat %s 0 4" % hx(w2), real, {"octets": w2.hex(), "offset": 0, "size": 4}))
+        ck.case(("decat", w2, 0, 4), True, "decat")
+        if real != real_decode(w2[:4])[0]:
+            ck.fail("tlv-read-beyond-pdu", "decode(%s, 0, 4) = %s: service name taken from outside the 4 octets" % (w2.hex(), real),
+                    {"octets": w2.hex(), "offset": 0, "size": 4})
+        e = b"\x00\x80"                                                            # F6: 520 nested AGF headers
+        for _ in range(520):
+            e = b"\x00\x80" + len(e).to_bytes(2, "big") + e
+        dec_case(e, "dec:witness")
+        flush()
+
+    witnesses()
 
     # exhaustive short strings
     dec_case(b"", "dec:exhaustive")
@@ -438,49 +517,7 @@ def run(ck):
             ck.fail("decode-internal-exception", "decode(%s, %d, %d) raised %s" % (buf.hex(), off, size, real),
                     {"octets": buf.hex(), "offset": off, "size": size})
     flush()
-    # design witnesses of F5
-    w1 = bytes.fromhex("0080" "0004" "11200202" "0002" "0540")     # CONNECT with a cut MIUX TLV, then DISC
-    dec_case(w1, "dec:witness")
-    w2 = bytes.fromhex("112006044142" "4344")
-    real, _ = real_decode(w2, 0, 4)
-    pending.append(("decat %s 0 4" % hx(w2), real, {"octets": w2.hex(), "offset": 0, "size": 4}))
-    if real != real_decode(w2[:4])[0]:
-        ck.fail("tlv-read-beyond-pdu", "decode(%s, 0, 4) = %s: service name taken from outside the 4 octets" % (w2.hex(), real),
-                {"octets": w2.hex(), "offset": 0, "size": 4})
-    flush()
-
-    # ------------------------------------------------------------ encode / len
-    def enc_case(desc, valid, bucket):
-        t = R.text(desc)
-        if len(t) > 400000:
-            return
-        real = real_encode(desc)
-        ln = real_len(desc)
-        pending.append(("enc " + t, real, {"pdu": t[:3000]}))
-        pending.append(("len " + t, ln, {"pdu": t[:3000]}))
-        nontrivial = len(desc) > 3 or desc[0] == "agf"
-        ck.case(("enc", t), nontrivial, bucket,
-                sample={"request": "enc " + t[:100], "impl": real[:100]} if rng.random() < 1e-4 or len(ck.samples) < 4 else None)
-        rp = {"pdu": t[:3000], "encode": real[:3000], "len": ln}
-        # oracles on the real code
-        if real.startswith("ok"):
-            e = bytes.fromhex(real[3:]) if real[3:] != "-" else b""
-            if ln != "ok %d" % len(e):
-                ck.fail("len-differs-from-encoding", "len(%s) = %s, encoding has %d octets" % (t[:200], ln, len(e)), rp)
-        if not valid:
-            return
-        if not real.startswith("ok"):
-            ck.fail("valid-pdu-not-encodable", "encode(%s) raised %s" % (t[:200], real), rp)
-            return
-        back, d = real_decode(e)
-        if d != desc:
-            key = "connect-rw0-not-encoded" if rw0(desc) and back.startswith("ok") else "roundtrip-field-mismatch"
-            ck.fail(key, "decode(encode(%s)) = %s" % (t[:200], back[:200]), dict(rp, decoded=back[:3000]))
-        ref = R.ref_decode(e)
-        if ref != desc:
-            ck.fail("encoding-differs-from-format", "encode(%s) = %s which the LLCP frame format reading takes as %s"
-                    % (t[:200], e.hex()[:200], "malformed" if ref is None else R.text(ref)[:200]), rp)
-
+    # ------------------------------------------------------------ encode / len: exploration
     # boundary sweep of the small integer fields, all values
     for rw in range(16):
         for miu in (128, 129, 128 + 0x7FF):
@@ -518,5 +555,7 @@ def run(ck):
     flush()
 
     ck.tie("pdu model vs nfc.llcp.pdu", cases=stats["cases"], disagreements=stats["dis"], exhaustive=False)
+    ck.tie("Spec.decode (Lean reading of the LLCP formats) vs nfc.llcp.pdu.decode", cases=stats["spec"],
+           disagreements=stats["specdis"], exhaustive=False)
     ck.notes.append("tie requests: %d (decode, decode-at, encode, len); every decode request below 3 octets "
                     "(thorough: below 4) is part of an exhaustive enumeration" % stats["cases"])
